@@ -138,8 +138,17 @@ func (d *Decoder) decodeSlice(pkt *rtp.Packet) ([]byte, error) {
 			return nil, fmt.Errorf("discarding frame since a RTP packet is missing")
 		}
 
+		addSize := len(pkt.Payload[4:])
+
+		if (d.fragmentsSize + addSize) > maxFrameSize {
+			errSize := d.fragmentsSize + addSize
+			d.resetFragments()
+			return nil, fmt.Errorf("slice size (%d) is too big, maximum is %d",
+				errSize, maxFrameSize)
+		}
+
 		d.fragments = append(d.fragments, pkt.Payload[4:])
-		d.fragmentsSize += len(pkt.Payload[4:])
+		d.fragmentsSize += addSize
 		d.fragmentNextSeqNum++
 		return nil, ErrMorePacketsNeeded
 	}
